@@ -1,5 +1,5 @@
 (** C02 - bind group layouts pass wgpu's shader-interface validation. *)
-From W2W Require Import Wf C03Spec WgpuValid C02Spec C02Proof.
+From W2W Require Import Wf C03Spec WgpuValid C02Spec C02Proof C02Features C02FeaturesProof.
 
 (** For every wf module the generator accepts whose resources are well-formed ([wf_resources]), for any
     per-entry-point use lists that are sound w.r.t. static access ([uses_sound]) and well-formed sampling pairs,
@@ -14,6 +14,14 @@ Theorem C02_holds_bool : forall m src inc o out_ uses sampling,
   C02_ok m out_ uses sampling = true.
 Proof. intros. eapply C02_ok_gen; eauto. Qed.
 Print Assumptions C02_holds_bool.
+
+(** Layout creation and optional features: an emitted entry needs VERTEX_WRITABLE_STORAGE (writable storage visible to the
+    vertex stage) only when a vertex entry point of the shader statically accesses the variable - a shader that needs
+    the feature itself. *)
+Theorem C02_no_spurious_feature : forall m src inc o out_,
+  wf m = true -> gen m src inc o = Ok out_ -> C02_features_ok m out_ = true.
+Proof. exact C02_features_ok_gen. Qed.
+Print Assumptions C02_no_spurious_feature.
 
 (** the binding type synthesised for any supported resource variable is accepted by [check_binding_use]
     (all 41 storage formats x 4 accesses x dimensions, all sampled / depth / multisampled classes, buffers) *)
